@@ -16,6 +16,7 @@ pub mod refs;
 pub mod macros;
 
 pub mod pay;
+pub mod recser;
 #[cfg(feature = "c01")]
 pub mod c01;
 #[cfg(feature = "c02")]
@@ -24,8 +25,12 @@ pub mod c02;
 pub mod c04;
 #[cfg(feature = "c05")]
 pub mod c05;
+#[cfg(feature = "c07")]
+pub mod c07;
 #[cfg(feature = "c08")]
 pub mod c08;
+#[cfg(feature = "c11")]
+pub mod c11;
 #[cfg(feature = "c13")]
 pub mod c13;
 #[cfg(feature = "c14")]
@@ -45,11 +50,15 @@ pub fn registry() -> Vec<(&'static str, fn(&mut src::Tape))> {
     #[cfg(feature = "c02")]
     v.extend_from_slice(c02::ALL);
     #[cfg(feature = "c04")]
-    { v.extend_from_slice(c04::BASE); v.extend_from_slice(c04::LON_ALL); }
+    { v.extend_from_slice(c04::BASE); v.extend_from_slice(c04::LAT_ALL); v.extend_from_slice(c04::LON_ALL); }
     #[cfg(feature = "c05")]
     { v.extend_from_slice(c05::BASE); v.extend_from_slice(c05::LON_ALL); }
+    #[cfg(feature = "c07")]
+    v.extend_from_slice(c07::ALL);
     #[cfg(feature = "c08")]
     v.extend_from_slice(c08::ALL);
+    #[cfg(feature = "c11")]
+    v.extend_from_slice(c11::ALL);
     #[cfg(feature = "c13")]
     v.extend_from_slice(c13::ALL);
     #[cfg(feature = "c14")]
